@@ -357,12 +357,17 @@ var (
 	mdCache   = map[Config]goldmark.Markdown{}
 )
 
-// MD returns a cached instance (one per configuration and process).
+// MD returns a cached instance (long-lived per configuration; the cache is bounded).
 func (c Config) MD() goldmark.Markdown {
 	mdCacheMu.Lock()
 	defer mdCacheMu.Unlock()
 	if m, ok := mdCache[c]; ok {
 		return m
+	}
+	if len(mdCache) >= 2048 {
+		// the lattice has far more points than a process should keep instances for (an instance is ~70 KB):
+		// start over; the representative points are re-created on demand
+		mdCache = map[Config]goldmark.Markdown{}
 	}
 	m := c.Fresh()
 	mdCache[c] = m
